@@ -21,10 +21,12 @@ Definition mcase_model_ok (c : mcase) : bool :=
 
 (* oracle: the documented precedence, on the entry list *)
 Definition mcase_prop_ok (c : mcase) : bool :=
-  negb (mc_built c) ||
+  (* a table is accepted exactly when no entry collides with an earlier one *)
+  Bool.eqb (mc_built c) (no_duplicate (mc_entries c)) &&
+  (negb (mc_built c) ||
   opt_cred_eqb (if mc_url c then spec_match_url (mc_entries c) (mc_scheme c) (mc_query c)
                 else spec_match (mc_entries c) (mc_query c))
-               (mc_out c).
+               (mc_out c)).
 
 (* ---- end to end: what every scripted hop received ---- *)
 Inductive gkind := GPlain | GConnect | GTunnelInner.
